@@ -207,6 +207,10 @@ def handle (st : St) (line : String) : St × String :=
         let cols := makeOutermorphism Cs Cd rows.toArray
         (st, showMV (applyCols Cd.dims cols x) ++ " | " ++ showMV (applyCols Cs.dims (transposeCols Cd.dims cols) x))
       | _, _, _, _ => (st, "err parse")
+  | ["BMAP", dimsTo, froms, tos, a] =>
+      match dimsTo.toNat?, (froms.splitOn ";").mapM parseMV, (tos.splitOn ";").mapM parseMV, parseMV a with
+      | some d, some fs, some ts, some a => (st, showMV (bladeMapApply d (fs.zip ts) a))
+      | _, _, _, _ => (st, "err parse")
   | ["KIND", a, b] =>
       match Kind.ofString a, Kind.ofString b with
       | some a, some b => (st, (promote a b).toString)
